@@ -15,7 +15,7 @@ def run(c):
     n = 1500 if c.tier == "quick" else 40000
     res, d = c.tool("jsoracle", ["-seed", c.seed + 100, "-tier", c.tier, "-n", n, "-cases", "print"])
     if res is not None:
-        c.corr("Js.render (the writer's spaces: every expression case also BYTE FOR BYTE) ; Js.print (parenthesis decisions of the expression printer over the regenerated precedence maps and constant guards) and Js.print_rw (the same printer with the on-the-fly rewrites optimizeUnaryExpr / optimizeBooleanExpr / optimizeCondExpr applied at every node) vs the token sequence of the real js.Minify on 6,000 + 6,000 random expressions; Js.optimize_body (the statement optimiser of stmtlist.go: if / else, return, throw, break, blocks, empty and expression statements) vs the AST the real optimizeStmtList returns (verif hook) on 6,000 parsed statement lists; Js.print_body (optimiser + statement printer + expression printer) vs the tokens js.Minify writes for ~3,000 function bodies; on the same bodies the statement of parse_print evaluated (printable, parses back to the tree the printer means); Js.NumLit (numeric literals: separators, BigInt suffix, 0b / 0o / 0x to decimal) vs the real functions on 6,000 literals; Js.StrLit (minifyString + replaceEscapes) vs the real function on 20,000 string literals, with the statement of the string-value theorem (decode of input = decode of output, output valid for its delimiter and in strict mode) evaluated on each", d, max_report=400)
+        c.corr("Js.render (the writer's spaces: every expression case also BYTE FOR BYTE) ; Js.print (parenthesis decisions of the expression printer over the regenerated precedence maps and constant guards) and Js.print_rw (the same printer with the on-the-fly rewrites optimizeUnaryExpr / optimizeBooleanExpr / optimizeCondExpr applied at every node) vs the token sequence of the real js.Minify on 6,000 + 6,000 random expressions; Js.optimize_body (the statement optimiser of stmtlist.go: if / else, return, throw, break, blocks, empty and expression statements) vs the AST the real optimizeStmtList returns (verif hook) on 6,000 parsed statement lists; Js.print_body (optimiser + statement printer + expression printer) vs the tokens js.Minify writes for ~3,000 function bodies; on the same bodies the statement of parse_print evaluated (printable, parses back to the tree the printer means); Js.NumLit (numeric literals: separators, BigInt suffix, 0b / 0o / 0x to decimal) vs the real functions on 6,000 literals; Js.StrLit (minifyString + replaceEscapes) vs the real function on 20,000 string literals, with the statement of the string-value theorem (decode of input = decode of output, output valid for its delimiter and in strict mode) evaluated on each; Js.merge_strings (mergeBinaryExpr + appendStringPart: the literal built for a string concatenation) vs the real function (hook) on 2,500 concatenations, with the statement 'value of the merged and minified literal = concatenation of the parts' values' evaluated on each", d, max_report=400)
         # a disagreement is searched for a failing input: the disagreeing expressions go to the node oracle as programs
         exs = getattr(c, "corr_examples", None) or []
         srcp = os.path.join(d, "cases.src")
